@@ -99,9 +99,10 @@ Definition cps (s : ddpstring) : option (list Z) :=
 (* the representation invariant: s holds exactly the text cs *)
 Definition repr (s : ddpstring) (cs : list Z) : Prop :=
   forallb tchar cs = true /\
-  ((cs = [] /\ s = empty_string) \/ (cs <> [] /\ bytes s = E cs ++ [0] /\ cap s = len (bytes s))).
-(* well-formed: capacity = byte length + 1, valid UTF-8 up to the single terminator at the end,
-   the empty text is exactly {NULL, 0} *)
+  ((cs = [] /\ s = empty_string) \/ (cs = [] /\ s = owned_empty) \/
+   (cs <> [] /\ bytes s = E cs ++ [0] /\ cap s = len (bytes s))).
+(* well-formed: capacity = byte length + 1, valid UTF-8 up to the single terminator at the end; the
+   empty text is {NULL, 0} or — from C producers outside the runtime — an allocated {"\0", 1} *)
 Definition wf (s : ddpstring) : Prop := exists cs, repr s cs.
 
 (* ---- operations on code-point lists -------------------------------------------------------------- *)
@@ -142,6 +143,7 @@ Definition sstep (st : list (list Z)) (o : op) : res (list (list Z) * obs) :=
   | OSlice r a i j => v <- s_slice (sreg st a) i j ;; Ok (upd st r v, VNone)
   | OCharToString r c => Ok (upd st r (s_char c), VNone)
   | OReplace r c i => v <- (if tchar c then s_replace (sreg st r) c i else Err) ;; Ok (upd st r v, VNone)
+  | OEmptyOwned r => Ok (upd st r [], VNone)
   | OIndex a i => c <- s_index (sreg st a) i ;; Ok (st, VInt c)
   | OLength a => Ok (st, VInt (clen (sreg st a)))
   | OEqual a b => Ok (st, VBool (list_eqb (sreg st a) (sreg st b)))
